@@ -8,6 +8,8 @@ package config
 // needs it (established by the parser: C02/C03 carriers).
 //@ macro pluginsOK(ps) = forall(j, 0, len(ps), ps[j].tag != 0 && pluginOK(ps[j])) && forall(a, 0, len(ps), forall(b, a + 1, len(ps), pluginRank(dyn(ps[a])) <= pluginRank(dyn(ps[b]))))
 //@ macro ifiOK(ifi) = 0 <= ifi.DefaultLifetime && pluginsOK(ifi.Plugins)
+//@ macro pluginsCfgOK(ps) = forall(j, 0, len(ps), ps[j].tag != 0 && pluginCfgOK(ps[j])) && forall(a, 0, len(ps), forall(b, a + 1, len(ps), pluginRank(dyn(ps[a])) <= pluginRank(dyn(ps[b]))))
+//@ macro ifiCfgOK(ifi) = 0 <= ifi.DefaultLifetime && pluginsCfgOK(ifi.Plugins)
 
 // C04: the forwarding flag handed to RouterAdvertisement must be a fresh read
 // of the interface's state (ghost token set by State.IPv6Forwarding).
@@ -22,7 +24,7 @@ package config
 //@ func (Interface).RouterAdvertisement
 //@   requires P1: ifiOK(ifi)
 //@   requires T1 [C04]: ghost.fwdFresh && ghost.fwdName == ifi.Name && forwarding == ghost.fwdVal
-//@   assigns new heap(ndp.RouterAdvertisement), new mem(ndp.Option), new heap(ndp.PrefixInformation), new heap(ndp.RouteInformation), new heap(ndp.RecursiveDNSServer), new heap(ndp.DNSSearchList), new heap(ndp.MTU), new heap(ndp.LinkLayerAddress), new mem(netip.Addr), new mem(netip.Prefix), new mem(system.IP), new mem(system.Route), new mem(config.Misconfiguration), ghost.clockRead, ghost.lastAddrs, ghost.lastRoutes
+//@   assigns new heap(ndp.RouterAdvertisement), new mem(ndp.Option), new heap(ndp.PrefixInformation), new heap(ndp.RouteInformation), new heap(ndp.RecursiveDNSServer), new heap(ndp.DNSSearchList), new heap(ndp.MTU), new heap(ndp.LinkLayerAddress), new mem(netip.Addr), new mem(netip.Prefix), new mem(system.IP), new mem(system.Route), new mem(config.Misconfiguration), ghost.clockRead, ghost.now, ghost.lastAddrs, ghost.lastRoutes
 //@   loop 1 invariant R0 [C01,C04]: 0 <= rangeindex + 1 && rangeindex + 1 <= len(ifi.Plugins) && ra != nil && fresh(ra) && ifiOK(ifi)
 //@   loop 1 invariant R1 [C01,C04]: raHeaderFrom(ra, ifi) && ra.RouterLifetime == ifi.DefaultLifetime
 //@   loop 1 invariant R2 [C01]: optsSorted(ra.Options) && optsKnown(ra.Options)
